@@ -210,7 +210,7 @@ class _Recorder:
         self.searched: List[str] = []      # the strings handed to the regular expression
 
 
-def simulate_header_machine(prog, seq, rx_ok: bool, sizes=None):
+def simulate_header_machine(prog, seq, rx_ok: bool, sizes=None, class_state=None):
     """CheckHeader.run interpreted (minieval) over a sequence of abstract statements -- "mc" block comment, "oc" // comment,
     "nc" anything else -- with a stub regular expression that matches (rx_ok) or not.  -> (_Recorder, emitted_at indexes)."""
     ch = prog.cls("CheckHeader")
@@ -253,6 +253,8 @@ def simulate_header_machine(prog, seq, rx_ok: bool, sizes=None):
     me = Obj("CheckHeader", context=context, name="CheckHeader")
     from ..fold import class_constants
     for k_, v_ in class_constants(ch).items():           # class-level constants read through self
+        if class_state is not None:
+            v_ = class_state.setdefault(k_, v_)            # the class object outlives the file: same objects for the next one
         me.__dict__.setdefault(k_, v_)
     emitted_at = []
     for i, k in enumerate(seq):
@@ -334,6 +336,26 @@ def rule_machine(run, prog):
             f"regex {'matching' if bad_size[1] else 'failing'} emit {bad_size[2]}, expected {bad_size[3]}; the recogniser saw texts of "
             f"{bad_size[4]} characters: a well-formed header followed by a long comment is judged by its size, not by the recogniser")
            if bad_size else "ok", runm.node, evaluations=n_size)
+    # the machine of a file starts from nothing: whatever the previous file of the process was (comments only, so that its
+    # header was never judged; a // comment; code first), the recogniser gets exactly this file's leading block comments
+    bad_carry = None
+    n_carry = 0
+    try:
+        for first in (("mc",), ("mc", "mc"), ("mc", "oc"), ("nc",), ("mc", "nc")):
+            for rx_ok in (True, False):
+                state = {}
+                simulate_header_machine(prog, first, rx_ok, class_state=state)
+                rec, _ = simulate_header_machine(prog, ("mc", "nc"), rx_ok, class_state=state)
+                alone, _ = simulate_header_machine(prog, ("mc", "nc"), rx_ok)
+                n_carry += 1
+                if (rec.emitted, rec.searched) != (alone.emitted, alone.searched) and bad_carry is None:
+                    bad_carry = (first, rx_ok, rec.emitted, rec.searched, alone.emitted, alone.searched)
+    except Unsupported as e:
+        raise Undecided(f"CheckHeader.run is outside the evaluable subset: {e}")
+    run.ob("R-13.3", f"{runm.key}::fresh-per-file", bad_carry is None,
+           (f"after a file whose statements were {bad_carry[0]}, the file (block comment, code) emits {bad_carry[2]} and hands "
+            f"{bad_carry[3]!r} to the recogniser; alone it emits {bad_carry[4]} and hands over {bad_carry[5]!r}: text of the "
+            f"previous file's comments is judged with this file's header") if bad_carry else "ok", runm.node, evaluations=n_carry)
     rm = registry_model(prog)
     run.ob("R-13.3", f"{ch.key}::runs-on-every-statement", "_rule" in rm.live_slots("CheckHeader"),
            "CheckHeader does not run after every statement (slot _rule): an empty or code first line could pass unnoticed",
